@@ -88,7 +88,8 @@ Record thread := {
   tacc : list cres;                   (* results of the earlier Resolve calls *)
   thold : bool;                       (* Task.holding *)
   tcanc : bool;                       (* Resolve returned the cancellation cause *)
-  tpub : nat                          (* ghost: clock when the edges of the current Resolve call were stored *)
+  tpub : nat;                         (* ghost: clock when the edges of the current Resolve call were stored *)
+  tdisc : list key                    (* ghost: the nodes the last completed checkCycle discovered *)
 }.
 
 Record state := {
@@ -116,23 +117,26 @@ Definition callers_of (l : list (key * key)) (d : key) : list key :=
 
 Definition set_pc (t : thread) (p : pc) : thread :=
   {| trun := trun t; tkey := tkey t; tcaller := tcaller t; thost := thost t; tsync := tsync t; tpc := p;
-     tobj := tobj t; tslots := tslots t; tacc := tacc t; thold := thold t; tcanc := tcanc t; tpub := tpub t |}.
+     tobj := tobj t; tslots := tslots t; tacc := tacc t; thold := thold t; tcanc := tcanc t; tpub := tpub t; tdisc := tdisc t |}.
 Definition set_pc_hold (t : thread) (p : pc) (h : bool) : thread :=
   {| trun := trun t; tkey := tkey t; tcaller := tcaller t; thost := thost t; tsync := tsync t; tpc := p;
-     tobj := tobj t; tslots := tslots t; tacc := tacc t; thold := h; tcanc := tcanc t; tpub := tpub t |}.
+     tobj := tobj t; tslots := tslots t; tacc := tacc t; thold := h; tcanc := tcanc t; tpub := tpub t; tdisc := tdisc t |}.
 Definition set_pc_obj (t : thread) (p : pc) (o : nat) : thread :=
   {| trun := trun t; tkey := tkey t; tcaller := tcaller t; thost := thost t; tsync := tsync t; tpc := p;
-     tobj := o; tslots := tslots t; tacc := tacc t; thold := thold t; tcanc := tcanc t; tpub := tpub t |}.
+     tobj := o; tslots := tslots t; tacc := tacc t; thold := thold t; tcanc := tcanc t; tpub := tpub t; tdisc := tdisc t |}.
 Definition set_pc_slots (t : thread) (p : pc) (sl : list (option dres)) : thread :=
   {| trun := trun t; tkey := tkey t; tcaller := tcaller t; thost := thost t; tsync := tsync t; tpc := p;
-     tobj := tobj t; tslots := sl; tacc := tacc t; thold := thold t; tcanc := tcanc t; tpub := tpub t |}.
+     tobj := tobj t; tslots := sl; tacc := tacc t; thold := thold t; tcanc := tcanc t; tpub := tpub t; tdisc := tdisc t |}.
 Definition set_pc_pub (t : thread) (p : pc) (c : nat) : thread :=
   {| trun := trun t; tkey := tkey t; tcaller := tcaller t; thost := thost t; tsync := tsync t; tpc := p;
-     tobj := tobj t; tslots := tslots t; tacc := tacc t; thold := thold t; tcanc := tcanc t; tpub := c |}.
+     tobj := tobj t; tslots := tslots t; tacc := tacc t; thold := thold t; tcanc := tcanc t; tpub := c; tdisc := tdisc t |}.
+Definition set_pc_disc (t : thread) (p : pc) (d : list key) : thread :=
+  {| trun := trun t; tkey := tkey t; tcaller := tcaller t; thost := thost t; tsync := tsync t; tpc := p;
+     tobj := tobj t; tslots := tslots t; tacc := tacc t; thold := thold t; tcanc := tcanc t; tpub := tpub t; tdisc := d |}.
 (* leaving Resolve: the results join the accumulated ones; canc = Resolve returned an error *)
 Definition leave_resolve (t : thread) (p : pc) (h canc : bool) : thread :=
   {| trun := trun t; tkey := tkey t; tcaller := tcaller t; thost := thost t; tsync := tsync t; tpc := p;
-     tobj := tobj t; tslots := tslots t; tacc := tacc t ++ map to_cres (tslots t); thold := h; tcanc := canc; tpub := tpub t |}.
+     tobj := tobj t; tslots := tslots t; tacc := tacc t ++ map to_cres (tslots t); thold := h; tcanc := canc; tpub := tpub t; tdisc := tdisc t |}.
 
 Definition set_slot (sl : list (option dres)) (i : nat) (r : dres) : list (option dres) :=
   firstn i sl ++ match skipn i sl with [] => [] | _ :: tl => Some r :: tl end.
@@ -193,14 +197,15 @@ Record eff := {
   e_edge : option (key * key);
   e_sem : peff;
   e_cancel : option key;
-  e_lead : option key
+  e_lead : option key;
+  e_pub : bool                                        (* ghost: the edges of a Resolve call are all stored: tick the clock *)
 }.
 Definition E (t : thread) : eff :=
   {| e_self := t; e_spawn := None; e_slot := None; e_tmap := None; e_obj := None; e_edge := None;
-     e_sem := PSame; e_cancel := None; e_lead := None |}.
+     e_sem := PSame; e_cancel := None; e_lead := None; e_pub := false |}.
 Definition Esem (t : thread) (p : peff) : eff :=
   {| e_self := t; e_spawn := None; e_slot := None; e_tmap := None; e_obj := None; e_edge := None;
-     e_sem := p; e_cancel := None; e_lead := None |}.
+     e_sem := p; e_cancel := None; e_lead := None; e_pub := false |}.
 
 (* the value a caller sees for a completed result *)
 Definition val_of (o : robj) (run : nat) : dres := DVal (oval o) (Nat.eqb (orun o) run).
@@ -241,7 +246,7 @@ Definition step_local (w : world) (s : state) (id : nat) : option eff :=
         let t' := if tsync t then (if thold t then set_pc_obj t (PBody 0) o else set_pc t PAbort)
                   else set_pc_obj t PAcquire o in
         Some {| e_self := t'; e_spawn := None; e_slot := None; e_tmap := Some (d, TRes o);
-                e_obj := Some (o, new_obj); e_edge := None; e_sem := PSame; e_cancel := None; e_lead := Some d |}
+                e_obj := Some (o, new_obj); e_edge := None; e_sem := PSame; e_cancel := None; e_lead := Some d; e_pub := false |}
       end
     end
   | RLoad2 =>
@@ -258,7 +263,7 @@ Definition step_local (w : world) (s : state) (id : nat) : option eff :=
     | None => None
     | Some d =>
       match q with
-      | [] => Some (E (set_pc t (if tsync t then RRel o else RWait o)))
+      | [] => Some (E (set_pc_disc t (if tsync t then RRel o else RWait o) (d :: map fst seen)))
       | x :: q' =>
         if match tcaller t with Some c => Nat.eqb x c | None => false end
         then let path := mkpath seen x d in
@@ -272,7 +277,7 @@ Definition step_local (w : world) (s : state) (id : nat) : option eff :=
     Some {| e_self := set_pc t (RCycR o); e_spawn := None; e_slot := None; e_tmap := None;
             e_obj := Some (o, {| oclosed := oclosed ob; oval := oval ob; orun := orun ob; ocanc := ocanc ob;
                                  ocyc := Some path |});
-            e_edge := None; e_sem := PSame; e_cancel := None; e_lead := None |}
+            e_edge := None; e_sem := PSame; e_cancel := None; e_lead := None; e_pub := false |}
   | RCycR o =>
     let ob := objs s o in
     Some (E (set_pc t (PReturn (match ocyc ob with Some p => DCyc p | None => val_of ob (trun t) end))))
@@ -320,13 +325,15 @@ Definition step_local (w : world) (s : state) (id : nat) : option eff :=
     | None => None
     | Some grp =>
       match nth_error grp i with
-      | None => Some (E (set_pc_pub t (PStart g (length grp) false) (clock s)))
+      | None => Some {| e_self := set_pc_pub t (PStart g (length grp) false) (clock s); e_spawn := None; e_slot := None;
+                        e_tmap := None; e_obj := None; e_edge := None; e_sem := PSame; e_cancel := None; e_lead := None;
+                        e_pub := true |}
       | Some d =>
         Some {| e_self := set_pc t (PEdges g (S i)); e_spawn := None; e_slot := None;
                 e_tmap := match tmap s d with TAbsent => Some (d, TNil) | _ => None end;
                 e_obj := None;
                 e_edge := match tkey t with Some c => Some (c, d) | None => None end;
-                e_sem := PSame; e_cancel := None; e_lead := None |}
+                e_sem := PSame; e_cancel := None; e_lead := None; e_pub := false |}
       end
     end
   | PStart g i nw =>
@@ -348,14 +355,14 @@ Definition step_local (w : world) (s : state) (id : nat) : option eff :=
           | None =>
             let child (sync h : bool) :=
               {| trun := trun t; tkey := Some d; tcaller := tkey t; thost := Some (id, j); tsync := sync;
-                 tpc := RLoad; tobj := 0; tslots := []; tacc := []; thold := h; tcanc := false; tpub := 0 |} in
+                 tpc := RLoad; tobj := 0; tslots := []; tacc := []; thold := h; tcanc := false; tpub := 0; tdisc := [] |} in
             match j with
             | O => Some {| e_self := set_pc_hold t (PCall g nw) false; e_spawn := Some (child true (thold t));
                            e_slot := None; e_tmap := None; e_obj := None; e_edge := None; e_sem := PSame;
-                           e_cancel := None; e_lead := None |}
+                           e_cancel := None; e_lead := None; e_pub := false |}
             | S _ => Some {| e_self := set_pc t (PStart g j true); e_spawn := Some (child false false);
                              e_slot := None; e_tmap := None; e_obj := None; e_edge := None; e_sem := PSame;
-                             e_cancel := None; e_lead := None |}
+                             e_cancel := None; e_lead := None; e_pub := false |}
             end
           end
         end
@@ -396,7 +403,7 @@ Definition step_local (w : world) (s : state) (id : nat) : option eff :=
         {| e_self := set_pc t (PReturn DNil); e_spawn := None; e_slot := None;
            e_tmap := if mine then Some (k, TNil) else None;
            e_obj := if cl then Some (o, closed_with 0%N true) else None;
-           e_edge := None; e_sem := PSame; e_cancel := cn; e_lead := None |} in
+           e_edge := None; e_sem := PSame; e_cancel := cn; e_lead := None; e_pub := false |} in
       match m with
       | MDone =>
         if wfix w && cancelled s t then Some (withdraw true None)
@@ -404,7 +411,7 @@ Definition step_local (w : world) (s : state) (id : nat) : option eff :=
           let v := wcomp w (inp s k) k (tacc t) in
           Some {| e_self := set_pc t (PReturn (DVal v true)); e_spawn := None; e_slot := None; e_tmap := None;
                   e_obj := Some (o, closed_with v (tcanc t)); e_edge := None; e_sem := PSame;
-                  e_cancel := None; e_lead := None |}
+                  e_cancel := None; e_lead := None; e_pub := false |}
       | MPanic => Some (withdraw (wfix w) (if cancelled s t then None else Some k))
       | MNoAcq => if wfix w then Some (withdraw true None) else Some (E (set_pc t (PReturn DNil)))
       end
@@ -415,7 +422,7 @@ Definition step_local (w : world) (s : state) (id : nat) : option eff :=
     | Some (p, i) =>
       Some {| e_self := (if tsync t then set_pc_hold t PEnd false else set_pc t PEnd); e_spawn := None;
               e_slot := Some (p, i, r, if tsync t then Some (thold t) else None);
-              e_tmap := None; e_obj := None; e_edge := None; e_sem := PSame; e_cancel := None; e_lead := None |}
+              e_tmap := None; e_obj := None; e_edge := None; e_sem := PSame; e_cancel := None; e_lead := None; e_pub := false |}
     end
   end.
 
@@ -426,7 +433,7 @@ Definition apply_slot (m : nat -> thread) (sl : option (nat * nat * dres * optio
     let tp := m p in
     upd m p {| trun := trun tp; tkey := tkey tp; tcaller := tcaller tp; thost := thost tp; tsync := tsync tp;
                tpc := tpc tp; tobj := tobj tp; tslots := set_slot (tslots tp) i r; tacc := tacc tp;
-               thold := match h with Some b => b | None => thold tp end; tcanc := tcanc tp; tpub := tpub tp |}
+               thold := match h with Some b => b | None => thold tp end; tcanc := tcanc tp; tpub := tpub tp; tdisc := tdisc tp |}
   end.
 
 (* the generic application of an effect; p = the new number of free permits *)
@@ -445,7 +452,7 @@ Definition apply_eff (s : state) (id : nat) (e : eff) (p : nat) : state :=
      rcanc := match e_cancel e with Some k => upd (rcanc s) (trun (thr s id)) (Some k) | None => rcanc s end;
      nrun := nrun s;
      permits := p;
-     clock := match e_edge e with Some _ => S (clock s) | None => clock s end;
+     clock := match e_edge e with Some _ => S (clock s) | None => if e_pub e then S (clock s) else clock s end;
      nexec := match e_lead e with Some k => upd (nexec s) k (S (nexec s k)) | None => nexec s end;
      roots := roots s |}.
 
@@ -468,7 +475,7 @@ Definition quiescent (s : state) : bool := forallb (fun i => ended (tpc (thr s i
 
 Definition root_thread (run : nat) : thread :=
   {| trun := run; tkey := None; tcaller := None; thost := None; tsync := false; tpc := PAcquire; tobj := 0;
-     tslots := []; tacc := []; thold := false; tcanc := false; tpub := 0 |}.
+     tslots := []; tacc := []; thold := false; tcanc := false; tpub := 0; tdisc := [] |}.
 
 Definition start_run (s : state) (ks : list key) : state :=
   {| inp := inp s; tmap := tmap s; edges := edges s; objs := objs s; nobj := nobj s;
